@@ -20,18 +20,17 @@ import (
 
 func checkpointKey(c *core.Ctx) {
 	chose := c.Func(pkgCommon, "", "ChoseSlotInRange")
-	dfs := c.Func(pkgCommon, "", "pickSuffixDfs")
+	dfs := c.FuncOpt(pkgCommon, "", "pickSuffixDfs") // the search may live in ChoseSlotInRange itself
 	getSlot := c.Func(pkgCluster, "", "GetSlot")
 	hash := c.Func(pkgCluster, "", "hash")
 	filterKey := c.Func(pkgFilter, "", "FilterKey")
 	cpk, _ := c.Pkg(pkgCommon).Types.Scope().Lookup("CheckpointKey").(*types.Const)
-	if chose == nil || dfs == nil || getSlot == nil || hash == nil || filterKey == nil || cpk == nil {
+	if chose == nil || getSlot == nil || hash == nil || filterKey == nil || cpk == nil {
 		if cpk == nil {
 			c.Undecidedf("anchor", "utils.CheckpointKey", token.NoPos, "constant CheckpointKey not found")
 		}
 		return
 	}
-	info := chose.Pkg.TypesInfo
 	ps := chose.Decl.Type.Params.List
 	var params []*ast.Ident
 	for _, f := range ps {
@@ -41,6 +40,26 @@ func checkpointKey(c *core.Ctx) {
 		c.Undecidedf("R4.range", "ChoseSlotInRange/signature", chose.Decl.Pos(), "expected (prefix, left, right)")
 		return
 	}
+	if dfs != nil {
+		searchWithHelper(c, chose, dfs, getSlot, params)
+	} else {
+		searchFlat(c, chose, getSlot, params)
+	}
+	choseCallers(c, chose, cpk)
+	// GetSlot is the verified extractor
+	viaHash := len(core.Calls(getSlot.Decl.Body, getSlot.Pkg.TypesInfo, func(_ *ast.CallExpr, o types.Object) bool { return o == hash.Obj })) > 0
+	if viaHash {
+		c.Okf("R4.range", "cluster.GetSlot/uses-hash", getSlot.Decl.Pos(), "GetSlot computes the slot with the extractor checked under R3")
+	} else {
+		c.Undecidedf("R4.range", "cluster.GetSlot/uses-hash", getSlot.Decl.Pos(), "GetSlot does not call hash")
+	}
+
+	filterKeyPrefix(c, filterKey, cpk)
+}
+
+// searchWithHelper: ChoseSlotInRange hands the search to pickSuffixDfs.
+func searchWithHelper(c *core.Ctx, chose, dfs, getSlot *core.Fn, params []*ast.Ident) {
+	info := chose.Pkg.TypesInfo
 	// the search function's parameters by role: the range predicate (a func), the
 	// candidate bytes, or the two bounds passed as integers
 	dsig := dfs.Obj.Type().(*types.Signature)
@@ -138,40 +157,8 @@ func checkpointKey(c *core.Ctx) {
 	}
 	// prefix: "<prefix>-" (Sprintf or concatenation) handed to the search, result returned
 	okPrefix := false
-	var seedOK func(e ast.Expr, depth int) bool
-	seedOK = func(e ast.Expr, depth int) bool {
-		e = strip(info, e)
-		if depth > 3 {
-			return false
-		}
-		switch x := e.(type) {
-		case *ast.CallExpr:
-			if core.IsFunc(core.CalleeFunc(info, x), "fmt", "", "Sprintf") && len(x.Args) == 2 {
-				f, _ := core.StringConst(info, x.Args[0])
-				return f == "%s-" && objOf(info, x.Args[1]) == info.Defs[params[0]]
-			}
-			// append([]byte(prefix), '-')
-			if b, isB := core.Callee(info, x).(*types.Builtin); isB && b.Name() == "append" && len(x.Args) == 2 && !x.Ellipsis.IsValid() {
-				sep, isC := core.IntConst(info, x.Args[1])
-				return isC && sep == '-' && objOf(info, strip(info, x.Args[0])) == info.Defs[params[0]]
-			}
-		case *ast.BinaryExpr:
-			sep, isC := core.StringConst(info, x.Y)
-			return x.Op == token.ADD && isC && sep == "-" && objOf(info, strip(info, x.X)) == info.Defs[params[0]]
-		case *ast.Ident:
-			rhs, other := defsOf(info, chose.Decl.Body, objOf(info, x))
-			n := 0
-			for _, r := range rhs {
-				if r != nil {
-					n++
-					if !seedOK(r, depth+1) {
-						return false
-					}
-				}
-			}
-			return n == 1 && other == 0
-		}
-		return false
+	seedOK := func(e ast.Expr, depth int) bool {
+		return seedExpr(info, chose.Decl.Body, info.Defs[params[0]], e, depth)
 	}
 	if dfsCall != nil && seedIdx >= 0 && len(dfsCall.Args) == dsig.Params().Len() {
 		okPrefix = seedOK(dfsCall.Args[seedIdx], 0)
@@ -213,50 +200,6 @@ func checkpointKey(c *core.Ctx) {
 	} else {
 		c.Undecidedf("R4.prefix", "ChoseSlotInRange/seed", chose.Decl.Pos(), "cannot see that the candidate is built as <prefix>-<suffix> and returned")
 	}
-	callers := 0
-	for _, pk := range c.Pkgs {
-		if pk.ID != pk.PkgPath || pk.TypesInfo == nil {
-			continue
-		}
-		for _, f := range pk.Syntax {
-			if strings.HasSuffix(c.Fset.Position(f.Pos()).Filename, "_test.go") {
-				continue
-			}
-			for _, call := range core.CallsAll(f, pk.TypesInfo, func(_ *ast.CallExpr, o types.Object) bool { return o == chose.Obj }) {
-				callers++
-				arg0 := call.Args[0]
-				if o := objOf(pk.TypesInfo, arg0); o != nil { // base := utils.CheckpointKey
-					if _, isConst := o.(*types.Const); !isConst {
-						var def ast.Expr
-						nd := 0
-						ast.Inspect(f, func(m ast.Node) bool {
-							if as, ok := m.(*ast.AssignStmt); ok && len(as.Lhs) == len(as.Rhs) {
-								for i, l := range as.Lhs {
-									if objOf(pk.TypesInfo, l) == o {
-										def = as.Rhs[i]
-										nd++
-									}
-								}
-							}
-							return true
-						})
-						if nd == 1 {
-							arg0 = def
-						}
-					}
-				}
-				if core.ObjOf(pk.TypesInfo, arg0) == cpk {
-					c.Okf("R4.prefix", "caller/"+short(pk.PkgPath), call.Pos(), "ChoseSlotInRange is called with CheckpointKey as prefix")
-				} else {
-					c.Undecidedf("R4.prefix", "caller/"+short(pk.PkgPath), call.Pos(), "ChoseSlotInRange is called with a prefix other than CheckpointKey: %s", c.Src(call.Args[0]))
-				}
-			}
-		}
-	}
-	if callers == 0 {
-		c.Undecidedf("R4.prefix", "caller", chose.Decl.Pos(), "no caller of ChoseSlotInRange found")
-	}
-
 	// pickSuffixDfs: slot of exactly the string that is returned, accepted only if judge says so
 	dinfo := dfs.Pkg.TypesInfo
 	g := cfgq.Of(c.Program, dfs)
@@ -510,15 +453,57 @@ func checkpointKey(c *core.Ctx) {
 			c.Undecidedf("R4.range", "pickSuffixDfs/slot-of-candidate", dfs.Decl.Pos(), "no accepting return found")
 		}
 	}
-	// GetSlot is the verified extractor
-	viaHash := len(core.Calls(getSlot.Decl.Body, getSlot.Pkg.TypesInfo, func(_ *ast.CallExpr, o types.Object) bool { return o == hash.Obj })) > 0
-	if viaHash {
-		c.Okf("R4.range", "cluster.GetSlot/uses-hash", getSlot.Decl.Pos(), "GetSlot computes the slot with the extractor checked under R3")
-	} else {
-		c.Undecidedf("R4.range", "cluster.GetSlot/uses-hash", getSlot.Decl.Pos(), "GetSlot does not call hash")
-	}
+}
 
-	// FilterKey: CheckpointKey prefix rejected before any list is consulted
+// choseCallers: ChoseSlotInRange is called with CheckpointKey as prefix.
+func choseCallers(c *core.Ctx, chose *core.Fn, cpk *types.Const) {
+	callers := 0
+	for _, pk := range c.Pkgs {
+		if pk.ID != pk.PkgPath || pk.TypesInfo == nil {
+			continue
+		}
+		for _, f := range pk.Syntax {
+			if strings.HasSuffix(c.Fset.Position(f.Pos()).Filename, "_test.go") {
+				continue
+			}
+			for _, call := range core.CallsAll(f, pk.TypesInfo, func(_ *ast.CallExpr, o types.Object) bool { return o == chose.Obj }) {
+				callers++
+				arg0 := call.Args[0]
+				if o := objOf(pk.TypesInfo, arg0); o != nil { // base := utils.CheckpointKey
+					if _, isConst := o.(*types.Const); !isConst {
+						var def ast.Expr
+						nd := 0
+						ast.Inspect(f, func(m ast.Node) bool {
+							if as, ok := m.(*ast.AssignStmt); ok && len(as.Lhs) == len(as.Rhs) {
+								for i, l := range as.Lhs {
+									if objOf(pk.TypesInfo, l) == o {
+										def = as.Rhs[i]
+										nd++
+									}
+								}
+							}
+							return true
+						})
+						if nd == 1 {
+							arg0 = def
+						}
+					}
+				}
+				if core.ObjOf(pk.TypesInfo, arg0) == cpk {
+					c.Okf("R4.prefix", "caller/"+short(pk.PkgPath), call.Pos(), "ChoseSlotInRange is called with CheckpointKey as prefix")
+				} else {
+					c.Undecidedf("R4.prefix", "caller/"+short(pk.PkgPath), call.Pos(), "ChoseSlotInRange is called with a prefix other than CheckpointKey: %s", c.Src(call.Args[0]))
+				}
+			}
+		}
+	}
+	if callers == 0 {
+		c.Undecidedf("R4.prefix", "caller", chose.Decl.Pos(), "no caller of ChoseSlotInRange found")
+	}
+}
+
+// filterKeyPrefix: FilterKey rejects the CheckpointKey prefix before any list is consulted.
+func filterKeyPrefix(c *core.Ctx, filterKey *core.Fn, cpk *types.Const) {
 	finfo := filterKey.Pkg.TypesInfo
 	fg := cfgq.Of(c.Program, filterKey)
 	prefixTestOn := func(e ast.Expr, key types.Object) bool {
@@ -778,4 +763,41 @@ func checkpointKey(c *core.Ctx) {
 	if k == 0 {
 		c.Undecidedf("R4.filter", "FilterKey/prefix-before-pass", filterKey.Decl.Pos(), "FilterKey never lets a key pass")
 	}
+}
+
+// seedExpr: e is "<prefix>-": fmt.Sprintf("%s-", prefix), prefix + "-",
+// append([]byte(prefix), '-'), or a local holding one of these.
+func seedExpr(info *types.Info, body ast.Node, prefix types.Object, e ast.Expr, depth int) bool {
+	e = strip(info, e)
+	if depth > 3 {
+		return false
+	}
+	switch x := e.(type) {
+	case *ast.CallExpr:
+		if core.IsFunc(core.CalleeFunc(info, x), "fmt", "", "Sprintf") && len(x.Args) == 2 {
+			f, _ := core.StringConst(info, x.Args[0])
+			return f == "%s-" && objOf(info, x.Args[1]) == prefix
+		}
+		// append([]byte(prefix), '-')
+		if b, isB := core.Callee(info, x).(*types.Builtin); isB && b.Name() == "append" && len(x.Args) == 2 && !x.Ellipsis.IsValid() {
+			sep, isC := core.IntConst(info, x.Args[1])
+			return isC && sep == '-' && objOf(info, strip(info, x.Args[0])) == prefix
+		}
+	case *ast.BinaryExpr:
+		sep, isC := core.StringConst(info, x.Y)
+		return x.Op == token.ADD && isC && sep == "-" && objOf(info, strip(info, x.X)) == prefix
+	case *ast.Ident:
+		rhs, other := defsOf(info, body, objOf(info, x))
+		n := 0
+		for _, r := range rhs {
+			if r != nil {
+				n++
+				if !seedExpr(info, body, prefix, r, depth+1) {
+					return false
+				}
+			}
+		}
+		return n == 1 && other == 0
+	}
+	return false
 }
